@@ -163,6 +163,8 @@ def constants(ctx, report):
 
 
 def ldap_schema(ctx, report):
+    from .. import rejections
+    rejections.check(ctx, report, 'C09.R8', 'opp')
     null_terminated(ctx, report)
     report.rule('C09.R6', 'asn1crypto schema tables equal RFC 4511')
     spec = load_spec('opp.json')['ldap']
